@@ -20,6 +20,7 @@ type Witness struct {
 	Nth  int    // 0: Old must be unique in the file (or within After); k>0: replace the k-th occurrence
 	After string // optional: search only after the first occurrence of this text
 	Breaks string // the input/history that misbehaves under the mutation
+	Old2, New2 string // optional second replacement (first occurrence), applied after the first
 }
 
 var witnesses []Witness
@@ -97,6 +98,13 @@ func runWitnesses(c *Ctx, p *PropInfo) {
 			continue
 		}
 		mut, ok := applyWitness(string(b), w)
+		if ok && w.Old2 != "" {
+			if strings.Contains(mut, w.Old2) {
+				mut = strings.Replace(mut, w.Old2, w.New2, 1)
+			} else {
+				ok = false
+			}
+		}
 		if !ok {
 			stale++
 			c.Ok("witness:"+w.Rule+":"+w.Name, w.File, "stale (anchor text not present in the current tree; self-test skipped)")
